@@ -39,7 +39,7 @@ CLAIMS["C07"] = {
             "otherwise, and run() re-enters the preamble phase only with close()'s Ok value (R7.4); the hand-off to the next request keeps the "
             "unread input (R7.5), the buffer is compacted before every in-request read (R7.6), a stream switch always demotes a record of the "
             "old stream in flight and close() never drives the parser at a record boundary (R7.7), pending management replies are drained by exactly the "
-            "count the transport accepted so none is sent twice before the epilogue (R7.8). Does NOT decide byte-level output "
+            "count the transport accepted so none is sent twice before the epilogue (R7.8); close() reads the writeable flag only after it awaited writeable() (R7.3). Does NOT decide byte-level output "
             "correctness per transport split, nor that the handler sees exactly the request's environment/streams (C01/C02/C09).",
     "note": "Parser APIs are events with their documented meaning; make_request_epilogue's own encoding is C17's subject.",
     "design_ref": "DESIGN.md §4 C07",
@@ -202,7 +202,7 @@ CLAIMS["C05"] = {
             "and hand over (buffer, n) with the unparsed input [raw_start, free_start) located at [0, n) of the buffer (E8 region tracking through discard and "
             "compaction, whatever their spelling); the request parser's constructor stores that length and starts in the initial state (R5.3); the "
             "request parser's compaction - in move_input, or written out in parse - leaves the drive's remainder at [0, input_len) (R5.4, E8); in the async layer close() never drives the stream parser while it stands at a record boundary, where buffered bytes belong to "
-            "the next request (R5.5, must-dataflow on the event graph). Does NOT decide the behavioural consequence (k sequential requests == k separate connections).",
+            "the next request (R5.5, must-dataflow on the event graph); parse() accounts for new_input on every return path, final states included (R5.6 = R3.2). Does NOT decide the behavioural consequence (k sequential requests == k separate connections).",
     "note": "copy_within / Vec::truncate semantics of std trusted.",
     "design_ref": "DESIGN.md §4 C05",
 }
@@ -274,7 +274,7 @@ CLAIMS["C01"] = {
             "are {own id & empty => done, own id & data => continue with (content_length, padding_length), else untouched} (R1.4); across "
             "all framing implementations a payload counter is only assigned the header's content_length, itself minus a consumed amount, "
             "or 0, and a padding counter likewise from padding_length (R1.5); the buffer really has at least the configured size the statement's "
-            "premise speaks of (R1.6). Does NOT decide equality of the decoded map for every record "
+            "premise speaks of (R1.6); the framing code and the pair decoder agree on how many bytes of a pair that crosses a record boundary went into the pair buffer (R1.7 = R6.4 + R6.5). Does NOT decide equality of the decoded map for every record "
             "cut / read cut / buffer size: the cross-record reassembly arithmetic (parse_buffered, try_fill!) is value-level.",
     "note": "Name-value decoding itself is C16's subject; case-insensitive lookup is C19's.",
     "design_ref": "DESIGN.md §4 C01",
@@ -287,7 +287,7 @@ CLAIMS["C02"] = {
             "payload_rem -= n and (buffered mode) gap_start += n with copy_within of exactly n bytes from raw_start (R2.3: each byte once); "
             "the empty record of the active stream and any later stream are held back untouched and reported as end (R2.4); a stream "
             "change demotes and discards, and parse asserts an empty stream buffer before delivering into a caller buffer (R2.5); all "
-            "records of one call deliver through the same advancing caller-buffer cursor (R2.6). Does NOT decide byte-exactness under all "
+            "records of one call deliver through the same advancing caller-buffer cursor (R2.6); compress / consume_stream / discard_stream / stream_buffer keep every live byte region where the cursors say, also after partial consumption (R2.7 = R3.10, E8). Does NOT decide byte-exactness under all "
             "fill / consume / compress schedules (four-cursor geometry arithmetic).",
     "note": "cmp_input_streams' loop is covered by the pinned stream_order test; C18 covers the tables around it.",
     "design_ref": "DESIGN.md §4 C02",
